@@ -130,7 +130,38 @@ def locks_part(res):
                        "how_to_replay": "./check C18"})
 
 
+def calls_part(res):
+    """chains of client calls on one context - calls that fail (causality breach, malformed record) followed by
+    further calls - through the Rust client and the C library: every call returns, whatever the one before did"""
+    import random
+    from props import _client, _files as F
+    rng = random.Random(res.seed * 131 + 18)
+    lines, _tags = _client.gen_cases(rng, 150 if res.tier == "quick" else 5000, res.tier)
+    lines = [ln for ln in lines if _client.in_range(_client.parse_case(ln))]
+    if res.tier == "quick":
+        lines = lines[:1200]
+    outs = {"Rust client": c.run_lines_hang_aware(c.build_harness("debug")[0], lines, "hang", chunk_timeout=30),
+            "C library": c.run_lines_hang_aware(F.build_c_driver(), lines, "hang", args=(), chunk_timeout=30)}
+    bad = []
+    for who, os_ in outs.items():
+        prev = None
+        for ln, o in zip(lines, os_):
+            res.evaluations += 1
+            kind = o.split()[1] if o.startswith("err") else o.split()[0]
+            res.count("client-call:%s" % kind)
+            if o in ("hang", "crash"):
+                bad.append({"case": {"file": "client context: " + who, "line": ln, "call_before": prev},
+                            "why": ["%s: the call (made twice in a row on the same context) did not return within 5 s (%s)" % (who, o)]})
+            prev = ln
+    res.oblige("every call of a chain of client calls returns, after failed calls as well (%d cases, Rust client and C library)" % len(lines), not bad)
+    if bad:
+        res.violation({"property": "C18", "kind": "input", "case": bad[0], "others": [b["case"]["line"] for b in bad[1:5]],
+                       "predicate": "every client call returns after a bounded amount of work",
+                       "how_to_replay": "./check C18"})
+
+
 def run(res, proofs_ok, proofs_why):
+    calls_part(res)
     _shm.run_property("C18", res, proofs_ok, proofs_why, extra_part=stall_part)
     open_part(res)
     locks_part(res)
